@@ -636,3 +636,50 @@ func init() {
 	register("both", &h.Scenario{Name: "C17-router-burst4-identical-neighbours", Prop: "C17", P: 1, F: 0, D: 1, Run: c17Identical(true), Check: c17Oracle("C17", 4, "router.go:", false)})
 	register("both", &h.Scenario{Name: "C17-tunnel-burst4-identical-neighbours", Prop: "C17", P: 1, F: 0, D: 1, Run: c17Identical(false), Check: c17Oracle("C17", 4, "tunnel.go:", false)})
 }
+
+// c17DuringHeartbeat: telegrams arrive while a heartbeat exchange is in flight (the gateway answers
+// the connection-state request 50 ms late): every one of them is handed over, in order - whoever
+// else inside the client is waiting on the socket at that time.
+func c17DuringHeartbeat(tcp bool) func() {
+	return func() {
+		const n = 6
+		network := "udp"
+		if tcp {
+			network = "tcp"
+		}
+		sock := fakesock.New(network)
+		gw := NewGateway(sock, 7)
+		gw.OnConnState = func(req *knxnet.ConnStateReq, s *fakesock.Sent) {
+			ch := req.Channel
+			After(50*ms, "late-state", func() { sock.Deliver(&knxnet.ConnStateRes{Channel: ch, Status: 0}) })
+		}
+		cfg := TCfg(100, 350, 100)
+		cfg.UseTCP = tcp
+		t, err := knx.NewTunnelOnSocket(sock, knxnet.TunnelLayerData, cfg)
+		if err != nil {
+			mc.Log(Note("connect failed: " + err.Error()))
+			return
+		}
+		mc.GoEnv("gateway-traffic", func() {
+			mc.Sleep(95 * ms)
+			for i := 0; i < n; i++ {
+				sock.Deliver(&knxnet.TunnelReq{Channel: 7, SeqNumber: uint8(i), Payload: Msg(i)})
+				mc.Sleep(20 * ms)
+			}
+		})
+		for i := 0; i < n; i++ {
+			c0 := mc.RecvC(t.Inbound())
+			c1 := mc.RecvC(mc.After(400 * ms))
+			if mc.Select(false, c0, c1) != 0 || !c0.Ok {
+				break
+			}
+			mc.Log(Rx{ID: MsgID(c0.V), From: "tunnel"})
+		}
+		t.Close()
+	}
+}
+
+func init() {
+	register("both", &h.Scenario{Name: "C17-udp-tunnel-telegrams-during-a-heartbeat-exchange", Prop: "C17", P: 1, F: 0, D: 1, Run: c17DuringHeartbeat(false), Check: c17Oracle("C17", 6, "tunnel.go:", false)})
+	register("both", &h.Scenario{Name: "C17-tcp-tunnel-telegrams-during-a-heartbeat-exchange", Prop: "C17", P: 1, F: 0, D: 1, Run: c17DuringHeartbeat(true), Check: c17Oracle("C17", 6, "tunnel.go:", false)})
+}
